@@ -101,6 +101,18 @@ pub fn sign_json<K>(
 where
     K: KeyPair,
 {
+    // Check the shape of `signatures` before taking anything out of `object`, so that `object` is
+    // left untouched if an error is returned.
+    match object.get("signatures") {
+        Some(CanonicalJsonValue::Object(signatures)) => {
+            if !matches!(signatures.get(entity_id), None | Some(CanonicalJsonValue::Object(_))) {
+                return Err(JsonError::not_multiples_of_type("signatures", JsonType::Object));
+            }
+        }
+        Some(_) => return Err(JsonError::not_of_type("signatures", JsonType::Object)),
+        None => {}
+    }
+
     let (signatures_key, mut signature_map) = match object.remove_entry("signatures") {
         Some((key, CanonicalJsonValue::Object(signatures))) => (Cow::Owned(key), signatures),
         Some(_) => return Err(JsonError::not_of_type("signatures", JsonType::Object)),
